@@ -89,6 +89,13 @@ def affectsEds (c : Change) (pv : PV) : Bool :=
   | .peerAuthentication => true
   -- waypoint EDS follows waypoint CDS (eds.go:132)
   | .address => pv == .ewWaypoint || (pv == .waypoint && c.attached)
+  -- the Sidecar resource / a VirtualService of a Sidecar-scoped proxy decides WHICH service a
+  -- hostname resolves to when the host exists in several namespaces (model/sidecar.go
+  -- `convertToSidecarScope`, `collectImportedServices`); the cluster keeps its name, its endpoints are
+  -- the other service's. The real code skips EDS here (`kind.Sidecar`, `kind.VirtualService` in
+  -- `skippedEdsConfigs`): a recorded finding, see `skip_sound_table_witness`.
+  | .sidecar => pv == .sidecar
+  | .virtualService => pv == .sidecar
   | _ => false
 
 /-- LDS: `ConfigGeneratorImpl.BuildListeners` (networking/core/listener.go). -/
@@ -169,6 +176,13 @@ def Affects (c : Change) (pv : PV) (t : GType) : Bool :=
     | .rds => affectsRds c pv
     | .nds => affectsNds c pv
     | .ecds => affectsEcds c pv)
+
+/-- The rows on which the real skip tables are KNOWN to violate the dependency relation (recorded
+    finding `e2e:long-ne-fresh:eds-not-pushed:sidecar-switches-service-for-host`): EDS of a sidecar
+    after a Sidecar / VirtualService-only change. -/
+def knownUnsoundSkip (r : TRow) (t : GType) : Bool :=
+  (match t with | .eds => true | _ => false) && r.pv == .sidecar &&
+    (match r.kind with | .sidecar | .virtualService => true | _ => false)
 
 /-- the change class described by a T row -/
 def TRow.change (r : TRow) : Change :=
